@@ -393,7 +393,7 @@ class SshCertTypeFactory(FourByteEnumParsable):
 @attr.s
 class SshCertSignature(ParsableBase):
     signature_type = attr.ib(validator=attr.validators.instance_of(SshHostKeyAlgorithm))
-    signature_data = attr.ib(attr.validators.instance_of((bytes, bytearray)))
+    signature_data = attr.ib(validator=attr.validators.instance_of((bytes, bytearray)))
 
     @classmethod
     def _parse(cls, parsable):
